@@ -90,6 +90,10 @@ STATIC = [
     {"mod": "s22_shared_spelling_rev", "flags": ["ErrorCommands"], "decls": [
         d("[SENSe]:FREQuency:STARt?", "fstart"), d("FREQuency:CENTer?", "fcent"), d("FREQ:SPAN?", "fspan"), d("STATe:RECall", "strc"),
         d("STATus:OPERation?", "stop"), d("OUTP:LEVel", "outl", ["f32"]), d("OUTPut:STATe", "outs", ["bool"]), d("SYST:ERR:ALL?", "eall"), d("SYSTem:ERR_LED", "eled", ["bool"])]},
+    # a command and queries whose spelling sets overlap only partly (the command has an optional level the queries lack or
+    # require): leaves reached by the same command are not therefore the same leaf
+    {"mod": "s24_partial_overlap", "flags": [], "decls": [d("[SOURce]:FREQuency", "fset", ["f64"]), d("SOURce:FREQuency?", "fsrc", ret="f64"), d("FREQuency?", "fget", ret="f64"),
+                                                           d("[OUTPut]:[STATe]", "oset", ["bool"]), d("OUTPut?", "oget", ret="bool"), d("STATe?", "sget", ret="bool")]},
     # one optional mnemonic twice in a header: the same spelling of the same handler arises more than once
     {"mod": "s23_self_overlap", "flags": [], "decls": [d("[ROUTe]:[ROUTe]:CLOSe", "rclose", ["u8"]), d("[SENSe]:[VOLTage]:[SENSe]:RANGe?", "srange"), d("[A]:[A]:X", "aax")]},
     # the options of the attribute in the other order: what is requested must not depend on the order it is requested in
@@ -258,6 +262,8 @@ def render(spec):
     for k, dcl in enumerate(spec["decls"]):
         emit_helpers(k)
         params = "".join(", p%d: %s" % (i, t) for i, t in enumerate(dcl["params"]))
+        for a_ in dcl.get("attrs") or []:
+            out.append("        " + a_)
         out.append("        #[scpi(cmd = \"%s\")]" % dcl["cmd"])
         out.append("        pub %sfn %s(&mut self%s) -> Result<%s, scpi::Error> { Ok(%s) }"
                    % ("async " if dcl["async"] else "", dcl["fn"], params, dcl["ret"], RET[dcl["ret"]]))
